@@ -27,6 +27,7 @@ WorldCfg cfg_for(const std::string &p) {
 RunResult run_hist(const Plan &p, EventLog &log, RunStats &stats, Progress *prog) {
     RunResult rr;
     asim::reset_run((unsigned char)p.knob("fill", 0xA5), p.knob("realloc", 0) ? asim::RA_INPLACE : asim::RA_MOVE, p.knob("reuse", 0) != 0);
+    borrowed::reset_run();
     WorldCfg cfg = cfg_for(p.property);
     cfg.hookcfg = p.knob("hooks", 0) ? HK_BOTH : HK_DEFAULT;
     cfg.hist_faults = p.knob("faults", 0) != 0;
